@@ -84,6 +84,13 @@ CHECKS.append(check(
     "deterministic simulation: seeded map-iteration and directory-enumeration order under the real compiler (source rewrite at check time), differential against an un-rewritten build",
     "DESIGN.md section 3 E, section 5 C20"))
 
+CHECKS.append(check(
+    "C01", "wsim", "exploration",
+    "One run = one Wuffs program (hand corpus, or a seeded near-miss generator: a proof obligation that holds only through a fact - if-guard, mask/min, loop condition, narrowing guard, derived range of a modular operator on a refined operand, slice-length fact - with or without a statement in between that should kill the fact: assignment, +=, x = x + 1, impure call, field store behind a pure call, slice re-assignment) handed to the working tree's lang/token+parse+check. A rejected program is counted and dropped. An accepted one is executed by a reference interpreter (ideal integers, written from the language documentation) under a seeded history of public calls with drawn arguments (extremes and refinement edges favoured) on one receiver whose state persists across calls; a monitor checks at every evaluated node that the value lies in the range the compiler derived for it (MBounds) and at every index, slice, shift, division, non-modular operation, conversion, assignment, argument and return the actual safety condition against actual lengths and types.",
+    "Sampling of programs x call histories. The interpreter shares the front end with the compiler (a mis-parse or mis-typed annotation is common-mode and invisible) and covers a stated subset: integers and refinements, arrays, slices of u8..u64, struct fields, if/else, while with break/continue, private/public method calls, compound and modular/saturating assignment, as-conversions, min/max/length; anything outside it (coroutines, I/O built-ins, iterate, SIMD, tables) makes the run 'unsupported' (counted, never a verdict) - so the suspension-related clauses of C01 are reached only through std/ under engine C (C03). Every acceptance hole found was re-confirmed on the C the working tree generates, under UBSan, before being treated as genuine (findings/compiler-acceptance-holes-*). The simulated dimension is the call history on persistent receiver state; the program axis is plain seeded generation.",
+    "deterministic simulation: seeded public-call histories on persistent receiver state executed by a reference interpreter (model) of programs the real checker accepted, with a derived-range/safety monitor; seeded near-miss program generation",
+    "DESIGN.md section 3 D, section 5 C01, Appendix E"))
+
 NA_REASONS = {
  "C06": "pure function of two big.Int interval pairs: no stream, state, schedule, fault or history exists for a simulator to control (DESIGN.md section 7)",
  "C10": "static property of an object file (sections, symbols) plus constness of pure methods: decided by inspecting a binary, not by simulating executions (DESIGN.md section 7)",
@@ -119,6 +126,7 @@ def main():
         },
         "engines": [
             {"name": "envsim", "path": "/verif/engines/envsim", "serves_properties": ["C20"], "kind_free_text": "the real compiler under seeded map-iteration / directory-enumeration order (rewrite/maprange.go + engines/envsim/rt as a virtual package), environment, cwd and GOMAXPROCS; whole `wuffs gen std/...` runs compared by artefact hash"},
+            {"name": "wsim", "path": "/verif/engines/wsim", "serves_properties": ["C01"], "kind_free_text": "reference interpreter over the AST returned by the working tree's check.Check (ideal integers), derived-range and safety monitor, seeded near-miss program generator and public-call histories"},
             {"name": "csim", "path": "/verif/engines/csim", "serves_properties": ["C03", "C05", "C07", "C08", "C09"], "kind_free_text": "I/O-delivery schedule simulator: a Go-side producer/consumer drives, call by call, a C driver child (/verif/csim/driver.c) linked against C that `wuffs gen` produces from the working tree at check time; sanitizer and -O2 builds, cached by content hash"},
             {"name": "gosim", "path": "/verif/engines/gosim", "serves_properties": ["C14"], "kind_free_text": "seeded goroutine scheduler (simrt) under the real lib/rac concurrent reader, whose channel constructs are rewritten at check time by /verif/rewrite and injected with go build -overlay"},
             {"name": "disksim", "path": "/verif/engines/disksim", "serves_properties": ["C13", "C15"], "kind_free_text": "simulated storage (fault-injecting io.Writer/TempFile, op-counting ReadSeeker) under the real lib/rac writer and readers"},
